@@ -117,6 +117,8 @@ def run_case(case, ctx):
         mps.eval()
     arng = random.Random(case['seed'] + 3)
     assign = mpslib.assign_coefficients(mps, arng)
+    from vf import neutral
+    neutral.maybe_freeze(mps, case['seed'])     # a frozen parameter group changes nothing
     x = mpslib.in_range_inputs(prog, case['seed'], 2)
     with torch.no_grad():
         try:
